@@ -123,12 +123,22 @@ def arms_pair(ck, F):
     P = Program(F)
     ev = set(F.find("Model::evaluate"))
 
+    def eval_flag(body):
+        # the "evaluation needed" flag of a replay function: the bool local most often assigned `true` (whatever its name)
+        cnt = {}
+        for bi, si, s in body.stmts():
+            if not place_proj(s["p"]) and body.locals[s["p"]["l"]] == "bool" and body.local_name(s["p"]["l"]) and \
+                    s["rv"]["k"] == "use" and const_bool(s["rv"]["o"]) is True:
+                cnt[s["p"]["l"]] = cnt.get(s["p"]["l"], 0) + 1
+        return max(cnt, key=cnt.get) if cnt else None
+
     def arm_info(body):
         sw = enum_switches(body, DIFF)
         if len(sw) != 1:
             return None
         bi, tg, wild, info = sw[0]
         out = {}
+        flag = eval_flag(body)
         for vn, entry in tg.items():
             if vn is None:
                 continue
@@ -144,7 +154,7 @@ def arms_pair(ck, F):
                         sets_eval = True
             for b in region:
                 for s in body.blocks[b]["s"]:
-                    if body.local_name(s["p"]["l"]) == "needs_evaluation" and not place_proj(s["p"]):
+                    if s["p"]["l"] == flag and not place_proj(s["p"]):
                         if s["rv"]["k"] == "use" and const_bool(s["rv"]["o"]) is True:
                             sets_eval = True
             out[vn] = (callees, sets_eval, entry)
